@@ -83,6 +83,47 @@ type FieldRef struct {
 	// Flat: an embedded by-value struct field that nothing has been stored into: its fields are looked up in Obj
 	// itself (the embedding struct and its embedded parts share one field namespace, as promoted selectors do)
 	Flat bool
+	// Part: a flat field that is not embedded (a named part of the holder's state, see partOfHolder)
+	Part bool
+}
+
+// partOfHolder: field i of the holder struct is a by-value struct of a named, unexported type of the holder's own
+// package, and none of its field names is also a field name of the holder or of another such part.
+func partOfHolder(holder types.Type, st *types.Struct, i int) bool {
+	hn, ok := holder.(*types.Named)
+	if !ok {
+		return false
+	}
+	pn, ok := st.Field(i).Type().(*types.Named)
+	if !ok || pn.Obj().Pkg() == nil || pn.Obj().Pkg() != hn.Obj().Pkg() || pn.Obj().Exported() {
+		return false
+	}
+	pt, ok := pn.Underlying().(*types.Struct)
+	if !ok || pt.NumFields() == 0 {
+		return false
+	}
+	names := map[string]bool{}
+	for k := 0; k < pt.NumFields(); k++ {
+		names[pt.Field(k).Name()] = true
+	}
+	for k := 0; k < st.NumFields(); k++ {
+		if names[st.Field(k).Name()] {
+			return false
+		}
+		if k == i {
+			continue
+		}
+		if on, isNamed := st.Field(k).Type().(*types.Named); isNamed && on.Obj().Pkg() == hn.Obj().Pkg() {
+			if ot, isStruct := on.Underlying().(*types.Struct); isStruct {
+				for j := 0; j < ot.NumFields(); j++ {
+					if names[ot.Field(j).Name()] {
+						return false
+					}
+				}
+			}
+		}
+	}
+	return true
 }
 
 type ElemRef struct {
@@ -95,6 +136,21 @@ type ElemRef struct {
 type MapVal struct {
 	M     map[string]Value
 	IsNil bool
+}
+
+// Lazy is an argument of Run that is computed by the run's interpreter before the subject is called (the value of a
+// package-level variable as the package initializer leaves it).
+type Lazy struct{ Eval func(ip *Interp) Value }
+
+// LoadGlobal: the current value of a package-level variable (its package is initialised on demand).
+func (ip *Interp) LoadGlobal(g *ssa.Global) Value {
+	if cell, ok := ip.eval(nil, g).(*Cell); ok {
+		if cell.V == nil {
+			return ip.ZeroOf(g.Type().Underlying().(*types.Pointer).Elem())
+		}
+		return cell.V
+	}
+	return nil
 }
 
 // Opaque is a value the model knows nothing about; branching on it makes the run undecided.
@@ -193,15 +249,17 @@ type Interp struct {
 	Arity    []int // arity seen at each tape position (for enumeration)
 	Events   []string
 	globals  map[*ssa.Global]Value
-	inited   map[*ssa.Package]bool
-	lenient  int // depth of the package initializer being interpreted leniently (0 = none)
-	fresh    int
-	depth    int
-	IsLog    func(*ssa.CallCommon) bool
-	InScope  func(*ssa.Function) bool
-	GoInline bool     // run goroutines synchronously at their go statement
+	// funcTypes: function values that were boxed into an interface under a named function type
+	funcTypes map[Value]types.Type
+	inited    map[*ssa.Package]bool
+	lenient   int // depth of the package initializer being interpreted leniently (0 = none)
+	fresh     int
+	depth     int
+	IsLog     func(*ssa.CallCommon) bool
+	InScope   func(*ssa.Function) bool
+	GoInline  bool // run goroutines synchronously at their go statement
 	// OnGo, when set, is told when an inlined goroutine starts (enter) and when it has run to completion
-	OnGo func(g *ssa.Go, enter bool)
+	OnGo     func(g *ssa.Go, enter bool)
 	Trace    []string // branch decisions, for witnesses
 	Deferred [][]func()
 	CurFn    Value // for dynamic calls: the evaluated function value, visible to Oracle.Call
@@ -279,6 +337,11 @@ func (ip *Interp) Run(fn *ssa.Function, args []Value, bind []Value) (out Outcome
 		out.Events = ip.Events
 		out.Trace = ip.Trace
 	}()
+	for i, a := range args {
+		if l, ok := a.(*Lazy); ok {
+			args[i] = l.Eval(ip) // an argument that only the run's own interpreter can produce
+		}
+	}
 	v := ip.CallFunction(fn, args, bind)
 	if t, ok := v.(Tuple); ok {
 		out.Ret = []Value(t)
@@ -642,6 +705,16 @@ func (ip *Interp) load(addr Value, typ types.Type) Value {
 	case *FieldRef:
 		if a.Flat {
 			if _, has := a.Obj.Fields[a.Name]; !has {
+				if a.Part {
+					// the value of a named part: the part's own fields as the holder has them
+					part := ip.Fresh("part:" + a.Name)
+					if pt, ok := a.Typ.Underlying().(*types.Struct); ok {
+						for k := 0; k < pt.NumFields(); k++ {
+							part.Fields[pt.Field(k).Name()] = ip.LoadField(a.Obj, pt.Field(k).Name(), pt.Field(k).Type())
+						}
+					}
+					return part
+				}
 				return a.Obj
 			}
 		}
@@ -792,6 +865,13 @@ func (ip *Interp) call(f *frame, site ssa.CallInstruction, args []Value) Value {
 					if m := f.fn.Prog.MethodValue(sel); m != nil && m.Blocks != nil && (ip.InScope == nil || ip.InScope(m) || m.Synthetic != "") && ip.depth <= ip.MaxDepth {
 						return ip.CallFunction(m, args, nil)
 					}
+				}
+			}
+		}
+		if gt, ok := ip.funcTypes[args[0]]; ok && f.fn.Prog != nil {
+			if sel := f.fn.Prog.MethodSets.MethodSet(gt).Lookup(com.Method.Pkg(), com.Method.Name()); sel != nil {
+				if m := f.fn.Prog.MethodValue(sel); m != nil && m.Blocks != nil && ip.depth <= ip.MaxDepth {
+					return ip.CallFunction(m, args, nil)
 				}
 			}
 		}
@@ -1037,7 +1117,13 @@ func (ip *Interp) step(f *frame, v ssa.Value) Value {
 		obj := ip.objOf(base, x.X.Type().Underlying().(*types.Pointer).Elem())
 		_, isStruct := fld.Type().Underlying().(*types.Struct)
 		_, has := obj.Fields[fld.Name()]
-		return &FieldRef{Obj: obj, Name: fld.Name(), Typ: fld.Type(), Flat: fld.Embedded() && isStruct && !has}
+		flat := fld.Embedded() && isStruct && !has
+		if !flat && isStruct && !has && partOfHolder(x.X.Type().Underlying().(*types.Pointer).Elem(), st, x.Field) {
+			// a part of the holder's state kept in a by-value struct of the holder's own package: its fields are
+			// looked up in the holder (whoever set the holder up by field names need not know about the part)
+			flat = true
+		}
+		return &FieldRef{Obj: obj, Name: fld.Name(), Typ: fld.Type(), Flat: flat, Part: flat && !fld.Embedded()}
 	case *ssa.Field:
 		base := ip.eval(f, x.X)
 		st := x.X.Type().Underlying().(*types.Struct)
@@ -1198,6 +1284,16 @@ func (ip *Interp) step(f *frame, v ssa.Value) Value {
 		v := ip.eval(f, x.X)
 		if l, ok := v.(*List); ok {
 			l.GoType = x.X.Type()
+		}
+		switch v.(type) {
+		case *ssa.Function, *Closure, Str, Int, Bool:
+			// a function, text or number boxed under a named type with methods: its methods are that type's
+			if n, isNamed := x.X.Type().(*types.Named); isNamed && n.NumMethods() > 0 {
+				if ip.funcTypes == nil {
+					ip.funcTypes = map[Value]types.Type{}
+				}
+				ip.funcTypes[v] = n
+			}
 		}
 		if t, ok := v.(*Tok); ok {
 			if _, isStruct := x.X.Type().Underlying().(*types.Struct); isStruct && t.Attr["gotype"] != nil {
